@@ -85,6 +85,10 @@ func wireLength(w *World, wc *wireCtx, r *Report) {
 						}
 					}
 				}
+				// ... or the entry found by a resolver helper (returns (entry, found) of its lookup), stored under the found edge
+				if foundLookupValue(pf, st.Val, b) != nil {
+					targetStore = true
+				}
 			}
 		})
 	}
